@@ -140,8 +140,10 @@ def run_verus_template(tpl, repo, res, pid, tier):
     for ob in failed:
         if ob not in ob_ids:
             res.obligations.append(dict(id=f'{name}::{ob}' if '::' not in ob and not ob.startswith(pid) else ob, engine='verus', status='failed', detail='\n'.join(failed[ob])[:4000], file=out, template=tpl))
-    # vacuity guard: canaries must be rejected
-    if not failed and not undecided:
+    # vacuity guard: canaries must be rejected (failures that are listed known findings do not switch it off)
+    known_ids = {k['obligation'] for k in load_known_findings() if k['property'] == pid}
+    unexpected = [ob for ob in res.obligations if ob.get('template') == tpl and ob['status'] == 'failed' and ob['id'] not in known_ids]
+    if not unexpected and not undecided:
         cpath = out.replace('_gen.rs', '_canary.rs')
         names = make_canary_file(meta, cpath)
         if names:
@@ -199,7 +201,11 @@ def finish(pid, tier, seed, res, contract, t0, repo):
         else:
             confirmed.append(ob)
     violations = confirmed
-    n_ob = len([o for o in res.obligations if not o.get('bounded')])
+    # A listed known finding is a statement clause that is FALSE on the current tree (kept as its own
+    # obligation so that it suppresses nothing else); it is reported under `known_findings`, not counted
+    # among the obligations this run claims to have discharged.
+    kf_ids = {id(o) for o, _ in known_hit}
+    n_ob = len([o for o in res.obligations if not o.get('bounded') and id(o) not in kf_ids])
     n_dis = len([o for o in res.obligations if o['status'] == 'discharged' and not o.get('bounded')])
     level = getattr(contract, 'LEVEL', 'proof')
     cov = dict(
@@ -207,7 +213,7 @@ def finish(pid, tier, seed, res, contract, t0, repo):
         checker_cmd=' ; '.join(res.cmds)[:6000] or 'none',
         trusted_base=sorted(res.trusted) + list(getattr(contract, 'TRUSTED', [])),
         functions_under_contract=res.functions,
-        obligation_list=[dict(id=o['id'], engine=o['engine'], status=o['status'], bounded=o.get('bounded', False), time_s=o.get('time')) for o in res.obligations],
+        obligation_list=[dict(id=o['id'], engine=o['engine'], status=('known-finding' if id(o) in kf_ids else o['status']), bounded=o.get('bounded', False), time_s=o.get('time')) for o in res.obligations],
         solver_time_s=res.solver_time,
         rewrites_applied=res.rewrites,
         bounded=res.bounded,
